@@ -1,5 +1,5 @@
 """C08 — redundant axes, axis relabelling, mirroring and periodic shifts change nothing."""
-from corr import corr_terms, corr_tvd, corr_ghost
+from corr import corr_terms, corr_tvd, corr_ghost, corr_means
 import solversearch as SS
 
 MODULES = ["PyFV.Props.C08"]
@@ -8,11 +8,11 @@ TRANSLATORS = {"T-lim": "python3 harness/translate/tlim.py lean/PyFV/Gen/Limiter
 
 def corr(rng, tier):
     k = 1 if tier == "quick" else 8
-    return [corr_terms(rng, 108 * k), corr_tvd(rng, 27 * k), corr_ghost(rng, 36 * k)]
+    return [corr_terms(rng, 108 * k), corr_tvd(rng, 27 * k), corr_ghost(rng, 36 * k), corr_means(rng, 72 * k)]
 
 
 def search(rng, tier, broken, cases):
-    S = SS.search_c08(rng, 80 if tier == "quick" and not broken else 800)
+    S = SS.search_c08(rng, 160 if tier == "quick" and not broken else 800)
     return S.violations, S.stats()
 
 
